@@ -44,6 +44,10 @@ def all_strings(maxlen: int = 4):
     for n in range(1, maxlen + 1):
         for t in itertools.product(ALPHABET, repeat=n):
             yield "".join(t)
+    import keyword as _kw
+    for w in _kw.kwlist + _kw.softkwlist + ["print", "self", "cls"]:
+        for t in {w, w.capitalize(), w.upper(), w + "_", "_" + w, w.capitalize() + " ", "-" + w.upper()}:
+            yield t
     for c in UNICODE_EDGE:
         for t in (c, c * 4, c + "d", "-" + c, c + "x1", "a" + c, c + "\u062f", "_" + c, c + " " + c, "1" + c):
             yield t
